@@ -9,6 +9,7 @@ import AnyVecModel.Proofs.KernelStackAlign
 import AnyVecModel.Proofs.KernelPtrAt
 import AnyVecModel.Proofs.KernelMemAccess
 import AnyVecModel.Props.Refine
+import AnyVecModel.Props.RefineMulti
 namespace AnyVec
 namespace C12
 open World
@@ -172,6 +173,21 @@ theorem views_show_the_abstract_vector {bg : Nat → Option VecSt} (v ty : Nat) 
   · simp [VecSt.typedSlice, hlen]
   · simp [VecSt.spareBytes, hlen, hcp]
   · simp [VecSt.spareCapacity, hlen, hcp]
+
+/-- **what is written into the spare capacity and claimed by `set_len` becomes exactly the new elements**: in any world
+that shows an abstract state of all its vectors, writing `k` fresh values into the first `k` slots of the spare capacity
+of a live vector (through `spare_capacity_mut` or `spare_bytes_mut`) and calling `set_len(len + k)` with
+`len + k ≤ capacity` leads to a world in which that vector shows its old items followed by exactly the `k` new ones, in
+slot order - the spare view starts right behind the elements and does not overlap them - with the same capacity; every
+other vector and the log of destructor runs are unchanged. -/
+theorem set_len_shows_what_was_written (cfg : Cfg) (w : World) (ms : RefineMulti.MSpec) (h : RefineMulti.MRel w ms)
+    (v k : Nat) (typed : Bool) (a : RefineMulti.AVec) (hv : ms.vecs[v]? = some (some a))
+    (hroom : a.items.length + k ≤ a.cap) :
+    RefineMulti.MRel (World.step cfg (.setLenSpare v k typed) w).1
+        ⟨ms.vecs.set v (some { a with items := a.items ++ List.range' ms.next k }), ms.next + k⟩ ∧
+      (World.step cfg (.setLenSpare v k typed) w).2 = .ok [] ∧
+      (World.step cfg (.setLenSpare v k typed) w).1.dropLog = w.dropLog :=
+  RefineMulti.set_len_refines cfg w ms h v k typed a hv hroom
 
 end C12
 end AnyVec
